@@ -139,7 +139,74 @@ def oracle_client(case):
     return Info(nt=nt, classes=classes, sample={"calls": case["calls"], "batch": case["batch"], "version": case["version"]})
 
 
+# -- pooled notifications under the deterministic scheduler (E2)
+@st.composite
+def pooled_cases(draw):
+    entries = draw(st.lists(st.one_of(reqgen.valid_entries(notif_bias=True), reqgen.valid_entries(notif_bias=True), reqgen.entries()), min_size=1, max_size=5))
+    body = ("single", entries[0]) if len(entries) == 1 and draw(st.booleans()) else ("batch", entries)
+    mx = draw(st.integers(1, 3))
+    kind = draw(st.sampled_from(["random", "random", "preempt"]))
+    if kind == "random":
+        spec = ("random", draw(st.integers(0, 2 ** 32)), draw(st.sampled_from([0.0, 0.6, 0.9])))
+    else:
+        spec = ("preempt", draw(st.lists(st.tuples(st.integers(1, 120), st.integers(0, 3)), max_size=4)), draw(st.integers(0, 3)))
+    return {"body": body, "version": draw(st.sampled_from([1.0, 2.0])), "jsonclass": draw(st.booleans()),
+            "mode": draw(st.sampled_from(["funcs", "funcs", "custom"])), "ascii": True,
+            "max": mx, "min": draw(st.integers(0, mx)), "sched": spec, "lines": draw(st.integers(0, 3)) == 0}
+
+
+def oracle_pooled(case):
+    from vlib import detsched as D
+    from vlib import poolprog
+    import jsonrpclib.SimpleJSONRPCServer as S
+
+    simthreading, simqueue, tp = poolprog.sim()
+    text = refmodel.render_body(case["body"], True)
+    registry = refmodel.Registry(jsonclass=case["jsonclass"])
+    exp = refmodel.model(text, case["version"], registry, case["mode"])
+    disp, dm, registry, cfg = refmodel.make_dispatcher(case["version"], case["jsonclass"], case["mode"], registry)
+    files = [S.__file__, tp.__file__] if case["lines"] else []
+    sched = D.Scheduler(D.make_chooser(case["sched"]), trace_files=files, max_steps=300000)
+    box = {}
+
+    def main():
+        pool = tp.ThreadPool(case["max"], case["min"], logname="pool")
+        pool.start()
+        disp.set_notification_pool(pool)
+        try:
+            box["out"] = disp._marshaled_dispatch(text, dm)
+        except Exception as ex:
+            box["exc"] = ex
+        box["log_at_reply"] = len(registry.log)
+        pool.join()
+        pool.stop()
+
+    try:
+        sched.run(main)
+    except (D.Deadlock, D.StepBudget) as ex:
+        fail("C04/pooled-no-progress", "%s: %s" % (type(ex).__name__, ex))
+    if "exc" in box:
+        fail("C02/dispatcher-raised:%s" % type(box["exc"]).__name__, "dispatcher raised %r" % (box["exc"],))
+    if sched.uncaught:
+        fail("C04/pooled-uncaught", "exception escaped a pool thread: %r" % (sched.uncaught,))
+    refmodel.raise_mine(refmodel.compare(box["out"], exp), ("C04",))
+    got = sorted(repr((n, gen.norm(a), gen.norm(k))) for n, a, k in registry.log)
+    want = sorted(repr((n, gen.norm(a), gen.norm(k))) for n, a, k in exp.log)
+    if got != want:
+        fail("C04/notification-executions", "with a notification pool the callables ran as %r, expected %r" % (got[:8], want[:8]),
+             {"schedule": sched.choices[:40]})
+    n_notif = sum(1 for k in exp.kinds if k.startswith("notification"))
+    classes = ["pooled", "pool-max:%d" % case["max"], "lines" if case["lines"] else "sync", "mode:" + case["mode"],
+               "notifications:%d" % min(n_notif, 4), "preemptions:%s" % ("0" if not sched.preemptions else "1-5" if sched.preemptions <= 5 else "6+")]
+    return Info(nt=n_notif >= 1 and sched.preemptions >= 1, classes=classes, key=(text, case["version"], case["mode"], case["max"], tuple(sched.choices)),
+                sample={"body": text[:200], "pool": [case["max"], case["min"]], "schedule": sched.choices[:30]})
+
+
 SUBS = [
+    Sub("pooled", oracle_pooled, strategy=lambda tier: pooled_cases(),
+        budget={"quick": 3000, "thorough": 60000}, shards={"quick": 12, "thorough": 16},
+        time_cap={"quick": 100, "thorough": 1500},
+        what="notifications on a (simulated) ThreadPool, request thread and workers interleaved by generated schedules"),
     Sub("inline", oracle, strategy=lambda tier: notif_cases(),
         budget={"quick": 6000, "thorough": 100000}, shards={"quick": 8, "thorough": 16},
         what="notification shapes alone and inside batches, inline execution"),
@@ -153,5 +220,5 @@ CLAIM = {
     "text": "Generated-input search over notification shapes, batch positions, method outcomes and dispatch modes; output compared with the reference model (no object for the entry) and the recorded invocation log (exactly once). Client-side notification calls return None.",
     "note": "Trusts vlib/refmodel.py; the pooled part samples schedules (not exhaustive).",
     "design_ref": "DESIGN.md section 4, C04",
-    "engine": "E1",
+    "engine": "E1+E2",
 }
